@@ -344,7 +344,9 @@ def derive(sc, o):
     queued_end = 0 if (not peek_ok or last["closed"]) else sum(last["queued"] or [])
     quiescent = o["ended"] == "" and peek_ok and last["wpos"] not in ("send", "chansend", "other")
     stuck = bool(last["init"]) and last["wpos"] == "chansend"
-    return {"offered": offered, "refused": refused, "received": received, "dumped": int(last["dumped"]),
+    # the supportability metrics are float64: span sums are exact only below 2^53
+    exact = all(x["c"] < 2 ** 53 for x in o["offered"])
+    return {"exact": exact,"offered": offered, "refused": refused, "received": received, "dumped": int(last["dumped"]),
             "left": left, "queued_end": queued_end, "quiescent": quiescent, "late": bool(o["shutdown_late"]),
             "stuck": stuck}
 
@@ -352,9 +354,9 @@ def derive(sc, o):
 def c_mobs(sc, o, d):
     log = clist([c_event(e) for e in o["events"]]) if o["events"] else "(@nil obs)"
     return ("{| m_qsize := %s; m_log := %s; m_offered := %s; m_refused := %s; m_received := %s; m_dumped := %s; "
-            "m_left := %s; m_queued_end := %s; m_quiescent := %s; m_shutdown_late := %s; m_worker_stuck := %s |}"
+            "m_exact := %s; m_left := %s; m_queued_end := %s; m_quiescent := %s; m_shutdown_late := %s; m_worker_stuck := %s |}"
             % (cN(sc["q"]), log, cpairs(d["offered"]), cpairs(d["refused"]), cpairs(d["received"]), cN(d["dumped"]),
-               cN(d["left"]), cN(d["queued_end"]), cbool(d["quiescent"]), cbool(d["late"]), cbool(d["stuck"])))
+               cbool(d["exact"]), cN(d["left"]), cN(d["queued_end"]), cbool(d["quiescent"]), cbool(d["late"]), cbool(d["stuck"])))
 
 
 def classify(sc, o, clause):
@@ -381,6 +383,14 @@ def classify(sc, o, clause):
     if inflight and clause in ("noblock", "bound", "shutdown"):
         return "c16-inflight-wrap"
     return "c16-%s-in-range" % clause
+
+
+def corr_clean_first(corr_bad, res):
+    """scenarios the LTS refuses, those the monitor accepts first"""
+    failed = set()
+    for clause in CLAUSES:
+        failed |= set(res[clause])
+    return [i for i in corr_bad if i not in failed] + [i for i in corr_bad if i in failed]
 
 
 # ------------------------------------------------------------------ the check
@@ -542,9 +552,10 @@ Print shutdown. Print all_ok.
             sigs[sig] = sigs.get(sig, 0) + 1
             if sigs[sig] > 1:
                 continue           # one replay per signature: the first scenario (the corpus runs first)
-            chk.fail("%s_%s.json" % (sig, sc.get("name", str(i))),
+            chk.fail("%s.json" % sig,
                      {"what": "the observation violates C16, clause %s (%s)" % (clause, sig),
-                      "scenarios": [sc], "derived": ders[i],
+                      # Go's select picks at random between the closed queue and the shutdown signal: repeat
+                      "scenarios": [sc] * (16 if sig == "c16-close-under-worker" else 1), "derived": ders[i],
                       "events": [e if e["k"] != "probe" else {"k": "probe", "probe": e["probe"]} for e in o["events"]][-24:]},
                      sig=sig)
     chk.cov["signatures"] = sigs
@@ -555,7 +566,7 @@ Print shutdown. Print all_ok.
         broken.append("trace inclusion ran out of fuel on scenarios %s" % res["fuel"][:10])
     if corr_bad:
         det = []
-        for i in corr_bad[:3]:
+        for i in (corr_clean_first(corr_bad, res) )[:3]:
             a, b = rej.get(i, (0, 0))
             k = (a if variant != "repaired" else b) - 1
             det.append({"scenario": scs[i], "refused_event_index": k,
@@ -565,7 +576,13 @@ Print shutdown. Print all_ok.
                       % (corr_bad[:10], len(res["corr_orig"]), len(res["corr_fixed"]), json.dumps(det, indent=1)[:6000]))
     if chk.cov["unsettled_waits"]:
         chk.notes.append("%d settle waits expired (2 s); the log order may be unreliable there" % chk.cov["unsettled_waits"])
-    if broken and not chk.violations and not chk.known_hits:
+    # a scenario the monitor is happy with but the LTS cannot follow is a broken tie whatever else was found
+    mon_failed = set()
+    for clause in CLAUSES:
+        mon_failed |= set(res[clause])
+    corr_clean = [i for i in corr_bad if i not in mon_failed]
+    chk.cov["disagreements"]["on_scenarios_the_monitor_accepts"] = len(corr_clean)
+    if broken and (corr_clean or not st["build_ok"] or res["fuel"] or (not chk.violations and not chk.known_hits)):
         chk.fail("broken.txt", "\n\n".join(broken), no_input=True)
     elif broken:
         chk.notes.append("also: " + "\n".join(broken)[:3000])
